@@ -43,6 +43,8 @@ def make_builtins(it):
             return class_matches_any(v, list(c))
         if c is None:
             return v is None
+        if isinstance(c, Builtin) and c.name in bc:
+            c = bc[c.name]
         if isinstance(c, ExtVal):
             h = it.e.ext_models.get("isinstance:" + c.name)
             if h is not None:
@@ -326,6 +328,13 @@ def make_builtins(it):
     def _setattr(o, name, v):
         it.setattr(o, name, v)
 
+    @reg("delattr")
+    def _delattr(o, name):
+        if isinstance(o, SObj) and name in o.fields:
+            del o.fields[name]
+            return
+        it.throw("AttributeError", name)
+
     @reg("hasattr")
     def _hasattr(o, name):
         try:
@@ -363,6 +372,10 @@ def make_builtins(it):
 
     @reg("next")
     def _next(o, *default):
+        if isinstance(o, Counter):
+            v = o.n
+            o.n += o.step
+            return v
         if isinstance(o, list):
             if o:
                 return o.pop(0)
@@ -427,6 +440,14 @@ def make_builtins(it):
     return B
 
 
+class Counter:
+    """itertools.count"""
+
+    def __init__(self, start=0, step=1):
+        self.n = start
+        self.step = step
+
+
 def _scalar(v):
     return isinstance(v, (SInt, SBool, SStr, int, bool, str)) and not isinstance(v, SObj)
 
@@ -437,6 +458,12 @@ def _scalar(v):
 def external(it, qual: str):
     bc = it.e.bclasses
     mod, _, name = qual.rpartition(".")
+    if mod == "ast":
+        from .astmodel import external_ast
+        v = external_ast(it, name)
+        if v is not None:
+            return v
+        return ExtVal(qual)
     if mod in ("typing", "typing_extensions", "collections.abc", "abc", "types"):
         if name in bc:
             return bc[name]
@@ -493,7 +520,7 @@ def external(it, qual: str):
         if name == "chain":
             return Builtin("chain", lambda *xs: [y for x in xs for y in it.iterate(x)])
         if name == "count":
-            return ExtVal(qual)
+            return Builtin("itertools.count", lambda start=0, step=1: Counter(start, step))
     if mod == "copy":
         if name in ("copy",):
             return Builtin("copy.copy", lambda o: shallow_copy(it, o))
